@@ -880,6 +880,19 @@ fn as_datetime_span_is_some() {
 fn as_datetime_nan_is_none() {
     nan_is_none();
 }
+/// a NaN serial is not a duration (`NaN.round() as i64` is 0: it must not come back as a zero duration)
+fn duration_nan_is_none() {
+    let v: f64 = kani::any();
+    kani::assume(v.is_nan());
+    kani::cover!(true);
+    let typ = if kani::any() { ExcelDateTimeType::DateTime } else { ExcelDateTimeType::TimeDelta };
+    let is_1904: bool = kani::any();
+    assert!(ExcelDateTime::new(v, typ, is_1904).as_duration().is_none());
+}
+#[kani::proof]
+fn as_duration_nan_is_none() {
+    duration_nan_is_none();
+}
 #[kani::proof]
 fn as_duration_total_any_f64() {
     total_duration();
